@@ -14,6 +14,10 @@ NARROW = "ab"
 WIDE = "Ｅ中"
 ZERO = "̤́"
 ALPHABET = NARROW + WIDE + ZERO
+# further characters for the generated (not enumerated) part: zero-width characters of other kinds (enclosing mark, Thai
+# vowel sign, Devanagari sign, variation selector, zero-width space, Cyrillic enclosing mark) and other double-width ones
+EXTRA_ZERO = "".join(ch for ch in "\u20dd\u0e31\u0941\ufe0f\u200b\u0488" if _w.wcwidth(ch) == 0)
+EXTRA_WIDE = "".join(ch for ch in "\U0001f600\u3042\uac00" if _w.wcwidth(ch) == 2)
 
 WIDTH = {ch: _w.wcwidth(ch) for ch in ALPHABET + " xyzXYZ0123456789"}
 for ch in NARROW + " ":
@@ -30,9 +34,13 @@ for ch in ZERO:
 def check_agreement():
     import cwcwidth
 
+    global EXTRA_ZERO, EXTRA_WIDE
     for ch, w in WIDTH.items():
         if cwcwidth.wcwidth(ch) != w:
             raise HarnessError(f"wcwidth and cwcwidth disagree on {ch!r}")
+    for ch in EXTRA_ZERO + EXTRA_WIDE:
+        if cwcwidth.wcwidth(ch) != _w.wcwidth(ch):
+            raise HarnessError(f"wcwidth and cwcwidth disagree on {ch!r}: drop it from widths.EXTRA_*")
 
 
 def cw(ch):
